@@ -483,6 +483,7 @@ Op Gen::diskOp(bool distancesFn) {
     int res = (int)r.below(16);
     int k = (int)r.below(6);
     if (r.chance(0.3)) k = (int)r.range(0, boost ? 45 : 20);
+    if (r.chance(0.04)) k = (int)r.range(21, boost ? 120 : 64);  // heavy tail (3k(k+1)+1 = 12 481 cells at k = 64)
     H3Index origin;
     double u = r.unit();
     if (u < 0.35) {
@@ -585,6 +586,8 @@ void Gen::polygonAround(LatLng c, double R, Op &op) {
         }
         case 1: {  // convex n-gon with jitter
             int n = (int)r.range(3, 12);
+            // heavy tail: loops with hundreds of vertices (anything sized "for up to N vertices" must meet N+1)
+            if (r.chance(0.06)) n = (int)r.range(13, r.chance(0.3) ? 700 : 140);
             for (int i = 0; i < n; i++)
                 outer.push_back(
                     vert(rot + 2 * PI * i / n, r.uniform(0.85, 1.0)));
@@ -624,6 +627,7 @@ void Gen::polygonAround(LatLng c, double R, Op &op) {
     if (u > 0.75) nh = 2;
     if (u > 0.88) nh = 3;
     if (u > 0.95) nh = 4;
+    if (u > 0.975) nh = (int)r.range(5, r.chance(0.3) ? 70 : 20);  // heavy tail: many holes
     for (int h = 0; h < nh; h++) {
         double hr = R * r.uniform(0.08, 0.3);
         double ho = R * r.uniform(0.0, 0.45), ha = r.uniform(0, 2 * PI);
